@@ -259,7 +259,7 @@ func (s *State) put(c Call) {
 	}
 	v := c.V
 	if c.Big > 0 {
-		v = strings.Repeat("x", c.Big)
+		v = c.BigVal()
 	}
 	s.KV[c.B][c.K] = kvRec{Val: v, TTL: c.TTL, TS: ts}
 }
